@@ -76,6 +76,7 @@ type FuncContract struct {
 	ParamNames []string // for iface / functype contracts
 	Strings    bool     // use SMT strings in this function
 	NoInline   bool
+	ReadsClock bool
 	File       string
 	Line       int
 }
@@ -135,7 +136,7 @@ type Contracts struct {
 	Nclause int
 }
 
-var keywordRe = regexp.MustCompile(`^(spec|pred|axiom|lemma|globalinv|type|func|iface|functype|extern|props|atomic|holds|at_call|requires|ensures|ensures_panic|ghost_ensures|modifies|loop|assume|nopanic|maypanic|trusted|pure|params|immutable|stable|guarded_by|ghost|lockinv|extsync|mutators|setup|strings|noinline)\b`)
+var keywordRe = regexp.MustCompile(`^(spec|pred|axiom|lemma|globalinv|type|func|iface|functype|extern|props|atomic|holds|at_call|requires|ensures|ensures_panic|ghost_ensures|modifies|loop|assume|nopanic|maypanic|trusted|pure|readsclock|params|immutable|stable|guarded_by|ghost|lockinv|extsync|mutators|setup|strings|noinline)\b`)
 
 var labelRe = regexp.MustCompile(`^([A-Za-z_][A-Za-z_0-9]*):([^:]|$)`)
 var propsRe = regexp.MustCompile(`^\{([A-Z0-9, ]+)\}\s*`)
@@ -380,6 +381,8 @@ func (cs *Contracts) LoadContractFile(path, pkg string) error {
 				curF.Trusted = true
 			case "pure":
 				curF.Pure = true
+			case "readsclock":
+				curF.ReadsClock = true
 			case "strings":
 				curF.Strings = true
 			case "noinline":
